@@ -84,7 +84,7 @@ DiscoverDecl(files, fam, suppress_alis) ==
 (* Cases                                                                   *)
 (***************************************************************************)
 Rows1(m) == UNION {[1..q -> Toks] : q \in 0..m}
-Bnds == {<<None, None>>, <<0, 1>>}
+Bnds == {<<None, None>>, <<0, 1>>, <<Sos, Eos>>}   \* the last pair: boundary values that coincide with the sos / eos ids
 Rows2(m) == UNION {[1..q -> {<<t, b[1], b[2]>> : t \in Toks, b \in Bnds}] : q \in 0..m}
 HypSyms == Toks \cup {Sos, Eos}
 Hyps1(m) == UNION {[1..q -> HypSyms] : q \in 0..m}
